@@ -32,7 +32,17 @@ TRUSTED = ["pyo3 embedding and the JSON text bridge in harness/src/wire_pyjson.i
 
 TARGET_PY = C.CACHE + "/target_py"     # own target dir: the py-bindings feature set must not evict the other units' artifacts
 VHJ = TARGET_PY + "/release/vh_wirejson"
-MUST_REJECT = ("len-1", "len+1", "odd", "badhex", "oor-high", "oor-low", "count-1", "count+1", "missing")
+MUST_REJECT = ("len-1", "len+1", "odd", "badhex", "badhex-mid", "oor-high", "oor-low", "count-1", "count+1", "missing",
+               # "invalid hex digit" in the wider sense: anything that is not [0x]<hex digits> must be rejected
+               "dup-prefix", "dup-prefix-only", "upper-prefix", "prefix-inside", "prefix-at-end", "space-inside", "space-before",
+               "space-after", "space-after-prefix", "newline-after", "underscore", "minus", "nul-inside", "non-ascii-digit")
+HEX_KINDS = ("BytesN", "G1", "G2", "Sk", "Bytes", "Prog")
+HEX_CLASSES = ("len-1", "var-len-1", "len+1", "var-len+1", "odd", "badhex", "badhex-mid", "no0x", "upper", "dup-prefix", "dup-prefix-only",
+               "upper-prefix", "prefix-inside", "prefix-at-end", "space-inside", "space-before", "space-after", "space-after-prefix",
+               "newline-after", "underscore", "minus", "nul-inside", "non-ascii-digit", "prefix-only", "empty-str")
+# for the deterministic hex stream: a bare leaf type and a derived class carrying that leaf, per hex-carrying leaf kind
+HEX_TYPES = {"Bytes": ["Bytes", "VDFProof", "Message"], "Prog": ["Program", "CoinSpend"], "BytesN": ["Bytes32", "Coin"],
+             "G1": ["G1Element", "ProofOfSpace"], "G2": ["G2Element", "SpendBundle"], "Sk": ["PrivateKey"]}
 
 
 # ------------------------------------------------------------------ python reference: value -> json object
@@ -175,12 +185,32 @@ def corruptions(D, d, j, rng, cap):
             b = node.b
             fixed = k in ("BytesN", "G1", "G2", "Sk")
             if len(b) >= 4:
+                h = b[2:]
                 add("len-1" if fixed else "var-len-1", lambda x: S(x.b[:-2]))
                 add("odd", lambda x: S(x.b[:-1]))
-                add("badhex", lambda x: S(x.b[:-1] + b"g"))
-                add("badhex", lambda x: S(x.b[:2] + b"x" + x.b[3:]))
-                add("no0x", lambda x: S(x.b[2:]))
-                add("upper", lambda x: S(b"0x" + x.b[2:].upper()))
+                add("badhex", lambda x: S(x.b[:-1] + b"g"))                 # non-hex character, last position
+                add("badhex", lambda x: S(x.b[:2] + b"x" + x.b[3:]))         # non-hex character, first position
+                add("badhex-mid", lambda x: S(x.b[:3] + b"z" + x.b[4:]))
+                add("no0x", lambda x: S(x.b[2:]))                            # missing prefix
+                add("upper", lambda x: S(b"0x" + x.b[2:].upper()))           # upper-case digits
+                # prefix / format variants (all are "invalid hex" unless the parser strips more than one prefix)
+                add("dup-prefix", lambda x: S(b"0x" + x.b))                  # 0x0x...
+                add("dup-prefix", lambda x: S(b"0x0x" + x.b))                # 0x0x0x...
+                add("upper-prefix", lambda x: S(b"0X" + x.b[2:]))            # 0X...
+                add("prefix-inside", lambda x: S(x.b[:4] + b"0x" + x.b[4:]))
+                add("prefix-at-end", lambda x: S(x.b + b"0x"))
+                add("space-inside", lambda x: S(x.b[:4] + b" " + x.b[4:]))
+                add("space-before", lambda x: S(b" " + x.b))
+                add("space-after", lambda x: S(x.b + b" "))
+                add("space-after-prefix", lambda x: S(b"0x " + x.b[2:]))
+                add("newline-after", lambda x: S(x.b + b"\n"))
+                add("underscore", lambda x: S(x.b[:4] + b"_" + x.b[4:]))
+                add("minus", lambda x: S(b"-" + x.b))
+                add("nul-inside", lambda x: S(x.b[:4] + b"\x00" + x.b[4:]))
+                add("non-ascii-digit", lambda x: S(x.b[:2] + "\uff11".encode() + x.b[3:]))   # fullwidth digit one
+            add("prefix-only", lambda x: S(b"0x"))
+            add("dup-prefix-only", lambda x: S(b"0x0x"))
+            add("empty-str", lambda x: S(b""))
             add("len+1" if fixed else "var-len+1", lambda x: S((x.b or b"0x") + b"00"))
             add("int-for-str", lambda x: 5)
             add("null", lambda x: None)
@@ -329,6 +359,33 @@ def run(ctx):
         for cls, kind, cj in corruptions(D, d, j, brng, cap):
             bad.append((n, jtext(cj), cls, kind))
     run_fromjson(rep, cache, have_model, "json.bad", bad)
+
+    # ---------------- json.hex: every prefix / format variant on every hex-carrying leaf kind, bare and inside a class
+    hrng = rng.fork("hex")
+    Gh = W.Gen(D, P, hrng)
+    hexcases, covered = [], set()
+    for kind, names in HEX_TYPES.items():
+        for n in names:
+            if n not in D.top or n not in D.json_types:
+                continue
+            d = D.top[n]
+            for attempt in range(3 if tier == "quick" else 12):
+                j = to_json(D, d, Gh.value(d))
+                cs = [c for c in corruptions(D, d, j, hrng, 10 ** 9) if c[1] == kind and c[0] in HEX_CLASSES]
+                for cls, k, cj in cs:
+                    hexcases.append((n, jtext(cj), cls, k))
+                    covered.add((kind, cls))
+    missing = [(k, c) for k in HEX_TYPES for c in HEX_CLASSES if (k, c) not in covered
+               and not (c.startswith("var-") and k not in ("Bytes", "Prog")) and not (c in ("len-1", "len+1") and k in ("Bytes", "Prog"))]
+    if missing:
+        rep.add_broken("generator", "json.hex", "hex format variants not exercised: %r" % missing[:8])
+    # de-duplicate, keep order
+    seen, uniq = set(), []
+    for c in hexcases:
+        if (c[0], c[1]) not in seen:
+            seen.add((c[0], c[1]))
+            uniq.append(c)
+    run_fromjson(rep, cache, have_model, "json.hex", uniq)
 
 
 def run_fromjson(rep, cache, have_model, stream, cases, expect_values=None):
